@@ -1081,7 +1081,11 @@ RULE = ('tensor level: space.lincomb(a, x1, b, x2, out) on tensor spaces; every 
         '(20-22 scalar pairs covering 0, 1, -1, generic, complex, a+b == 0) combination in the direct (3 entries) and '
         'fallback (100 entries) regime for each of 7 dtypes (float16/32/64, complex64/128, int32/64), a sample of '
         'them on 50000 entries (BLAS) and on the border sizes 99, 100, 101, 4999, 49999, 50000, 50001, 250x200, on '
-        'C / F / strided / mixed layouts; the same with NaN in every buffer the call must not read and with NaN '
+        'C / F / strided / mixed layouts, plus a fixed list of >= 50000-entry cases for which BLAS is NOT applicable '
+        '(strided out / operand, mixed C/F order, float16, float128) with every alias pattern.  Arrays of >= 100 '
+        'entries are periodic (closed form); from 2000 entries on Coq evaluates the model with the true size on one '
+        'period (Python first checks that every buffer before and after the call is periodic) except for one '
+        'whole-array case per alias pattern and main dtype; the same with NaN in every buffer the call must not read and with NaN '
         'inside an operand (poisoned carrier option Q).  space level: 32 public operations (lincomb with and without '
         'b, multiply, divide, assign, copy, set_zero, + - * / with element and scalar, reflected and in-place forms, '
         'neg, pos, **=) and 12 power-space broadcasting forms on tensor, uniform_discr and nested/power product '
@@ -1101,17 +1105,21 @@ ASSUMPTIONS = ['exact arithmetic: theorems are over a field (reals / complex num
                'the property says; identity is what the model tracks',
                'temporaries created by space.element() hold arbitrary values of the right size']
 TRUSTED = ['translate/lincomb.py (Python ast -> Gallina: thresholds, regime tests, direct expression, fallback '
-           'bodies, ravel rule, decision tree), fail-closed; _blas_is_applicable and _BLAS_DTYPES are pinned',
+           'bodies, ravel rule, decision tree, _blas_is_applicable), fail-closed; _BLAS_DTYPES and the array bindings '
+           '(x.data, ravel(order=ravel_order), get_blas_funcs) are pinned textually',
            'C01/Model.v interpreter of the generated syntax; C01/ModelSpace.v transcription of '
            'odl/set/space.py operators and odl/space/pspace.py recursion (validated by the correspondence)',
            'Q-instance of the carrier class computes the rational restriction of the proved field instance']
 LEVEL_TEXT = ('Proof: for the decision tree, fallback bodies, direct expression, thresholds and regime rule regenerated '
               'from _lincomb_impl on every run, Coq proves over ANY field (reals and complex numbers are instances) '
-              'that for every size (all three regimes), every store, all scalars and ALL object identities of '
-              '(x1, x2, out) the call returns, out holds a*x1+b*x2 of the initial operands and nothing else changes; '
+              'that for every size (all three regimes, chosen by the regenerated dispatch and _blas_is_applicable, which '
+              'are proved to select BLAS only when it updates out in place), every store, all scalars and ALL object '
+              'identities of (x1, x2, out) the call returns, out holds a*x1+b*x2 of the initial operands and nothing else '
+              'changes; '
               'at the poisoned carrier (None = NaN) that clean operands give a clean, correct result whatever out held '
               'before; for non-floating dtypes the direct formula at every size; by induction on arbitrarily nested '
-              'product spaces that lincomb/multiply/divide are entry-wise exact at every leaf under positional aliasing. '
+              'product spaces that lincomb/multiply/divide are entry-wise exact at every leaf under positional aliasing; '
+              'entry-wise specifications of 15 public operators incl. x+c through one(), c-x and x**=p for all p >= 0. '
               'set_zero() on garbage is proved correct from 100 entries on and refuted below (recorded finding).')
 LEVEL_NOTE = ('Validated, not proved: the transcription of the 32 public operators / broadcasting into lincomb/multiply/'
               'divide programs (exact correspondence incl. temporaries), NumPy layout handling, BLAS, float rounding. '
